@@ -681,6 +681,7 @@ func c06(r *Run) {
 
 	c06Flavours(r)
 	c06Names(r)
+	regFreePairings(r, "conc kind=stale ", "after a registration has returned, a lookup by one of the template's names does not give the version registered under it", 4, r.N(2000, 50000))
 	c06DeepIncludes(r)
 	c06ModelTie(r)
 }
